@@ -35,6 +35,23 @@ pub(crate) struct CutPlane {
     pub index: u32,
 }
 
+/// Verification tap: the keep/split decision taken by each `process_primitive_set` call
+/// (`None` = part kept, `Some((abc, d))` = split by that plane), in call order.
+#[cfg(all(dimforge_parry_verif, feature = "std"))]
+pub mod verif_tap {
+    use crate::math::{Real, Vector};
+    use alloc::vec::Vec;
+    use core::cell::RefCell;
+    std::thread_local! {
+        /// Decisions recorded since the last `take()`.
+        pub static DECISIONS: RefCell<Vec<Option<(Vector<Real>, Real)>>> = const { RefCell::new(Vec::new()) };
+    }
+    /// Returns and clears the recorded decisions.
+    pub fn take() -> Vec<Option<(Vector<Real>, Real)>> {
+        DECISIONS.with(|d| core::mem::take(&mut *d.borrow_mut()))
+    }
+}
+
 /// Approximate convex decomposition using the VHACD algorithm.
 pub struct VHACD {
     // raycast_mesh: Option<RaycastMesh>,
@@ -350,11 +367,17 @@ impl VHACD {
             let mut best_left = VoxelSet::new();
             let mut best_right = VoxelSet::new();
 
+            #[cfg(all(dimforge_parry_verif, feature = "std"))]
+            verif_tap::DECISIONS.with(|d| d.borrow_mut().push(Some((best_plane.abc, best_plane.d))));
+
             voxels.clip(&best_plane, &mut best_right, &mut best_left);
 
             temp.push(best_left);
             temp.push(best_right);
         } else {
+            #[cfg(all(dimforge_parry_verif, feature = "std"))]
+            verif_tap::DECISIONS.with(|d| d.borrow_mut().push(None));
+
             parts.push(voxels);
         }
     }
